@@ -441,14 +441,14 @@ def check_call(ctx, env, sd, model_m_hist, seg_calls, call, rid, dt, fresh_befor
         else:
             judge_refused(ctx, env, sd, call, rid, res, inp, before_view)
         for f in res["new_files"]:
-            os.unlink(f)
+            env.unlink(f)
         return out, None
     script = res["script"]
     if script is None:
         # the written file is not a revision file name
         out["ignored"] = [os.path.basename(f) for f in res["new_files"]]
         for f in res["new_files"]:
-            os.unlink(f)
+            env.unlink(f)
         return out, None
     # fresh load
     try:
@@ -459,7 +459,7 @@ def check_call(ctx, env, sd, model_m_hist, seg_calls, call, rid, dt, fresh_befor
     except Exception as e:  # noqa
         ctx.fail(inp, "reload: the directory does not load after an accepted call (%s: %s)" % (type(e).__name__, str(e)[:200]))
         for f in res["new_files"]:
-            os.unlink(f)
+            env.unlink(f)
         return out, None
     out["fresh_view"] = fv
     out["fresh_hist"] = G.hist_of_map(fresh.revision_map)
@@ -479,7 +479,7 @@ def check_call(ctx, env, sd, model_m_hist, seg_calls, call, rid, dt, fresh_befor
         ctx.fail(inp, "reload: the generated revision is not loaded by a fresh ScriptDirectory (file %s)" % os.path.relpath(script.path, env.dir),
                  impl={"ids": [r["id"] for r in fv["revs"]], "incremental_ids": [r["id"] for r in (out["inc_view"] or {"revs": []})["revs"]]})
         for f in res["new_files"]:
-            os.unlink(f)
+            env.unlink(f)
         out.pop("fresh_view")
         out["unloaded"] = True
         return out, None
@@ -507,8 +507,11 @@ def run_sequences(ctx, n_seq, rng_name="seq", f12=False):
         hooks = rng.random() < 0.08
         # an output_encoding that cannot represent every message (a call whose text does not fit must be refused cleanly)
         enc = None if f12 else rng.choice([None] * 8 + ["ascii", "ascii", "utf-8"])
+        # sourceless directories that still hold their sources: Python caches the byte code next to them
+        bytecode = sourceless and rng.random() < 0.7
         env = G.Scratch(file_template=tmpl, trunc=trunc, two_locations=two, recursive=rec, timezone=tz, sourceless=sourceless,
-                        revision_environment=rev_env, hooks=hooks, output_encoding=enc)
+                        revision_environment=rev_env, hooks=hooks, output_encoding=enc, bytecode=bytecode)
+        ctx.hist("options", "byte code cached next to the sources=%s" % bytecode)
         ctx.hist("options", "output_encoding=%s" % enc)
         env.real_date = real_date
         ctx.hist("config", "template=%s trunc=%s locations=%d" % (tmpl, trunc, 2 if two else 1))
@@ -1045,6 +1048,19 @@ BATTERY = [
         {"kind": "merge", "rev_id": "d2d2", "head": ["b2b2", "c2c2"]},
     ]),
     ({"timezone": "Mars/Phobos"}, [{"rev_id": "a3a3"}]),
+    # a sourceless directory that still holds its sources and the byte code Python cached for them; dotted revision ids
+    # (version numbers) put dots into the file names
+    ({"sourceless": True, "bytecode": True}, [
+        {"rev_id": "1.0", "head": "base", "message": "first release"},
+        {"rev_id": "1.1", "head": "1.0", "branch_label": "stable"},
+        {"rev_id": "v2.0", "head": "base", "message": "other root"},
+        {"kind": "merge", "rev_id": "2.1", "head": ["1.1", "v2.0"]},
+        {"rev_id": "abcd12", "head": "2.1"},
+    ]),
+    ({"sourceless": True, "bytecode": True, "file_template": "%(rev)s.%(slug)s"}, [
+        {"rev_id": "a4a4", "head": "base", "message": "dots from the template"},
+        {"rev_id": "b4b4", "head": "a4a4", "message": "second"},
+    ]),
 ]
 
 
